@@ -50,7 +50,7 @@ def distance_range(rng, step):
     elif kind == 'narrow':
         dmax = dmin * 10 ** (step * rng.uniform(1.05, 3.5))
     else:
-        dmax = dmin * 10 ** rng.uniform(0.2, 1.6)
+        dmax = dmin * 10 ** rng.uniform(0.2, 1.6 if rng.random() < 0.8 else 3.0)
     return dmin, dmax, kind
 
 
@@ -69,7 +69,7 @@ def run(ctx):
     ctx.require_events('Fitter.__init__:post', 'Fitter.fit:post', 'grid_checked', 'fluxes_checked', 'too_small_refused')
     ctx.require_regimes('n=1', 'n=2', 'n>2', 'beyond_table', 'av_clipped', 'av_interior', 'best_first', 'best_mid',
                         'best_last', 'style:v1', 'style:v2name', 'style:v2wav', 'memmap_on', 'memmap_off', 'unit:pc', 'unit:cm')
-    n_pkg = 14 if ctx.quick else 50
+    n_pkg = 14 if ctx.quick else 160
     n_rng = 3
     n_src = 12 if ctx.quick else 25
     for ip in range(n_pkg):
